@@ -583,6 +583,11 @@ func c09GenFilter(r *Rng) []string {
 	if r.Chance(1, 3) {
 		return f
 	}
+	// a list that is NOT empty but holds only blank entries (connectionSecretKeys: [""]): it
+	// allows nothing - "all keys" is for an XRD that lists none
+	if r.Chance(1, 7) {
+		return Pick(r, [][]string{{""}, {"", ""}, {"", "", ""}})
+	}
 	for _, k := range []string{"user", "pass", "host", "username"} {
 		if r.Chance(3, 5) {
 			f = append(f, k)
@@ -593,6 +598,13 @@ func c09GenFilter(r *Rng) []string {
 	}
 	if r.Chance(1, 6) {
 		f = append(f, "unused")
+	}
+	// blank entries next to real keys (once or twice): they allow nothing more
+	if r.Chance(1, 5) {
+		f = append(f, "")
+		if r.Bool() {
+			f = append(f, "")
+		}
 	}
 	// not in name order
 	p := r.Perm(len(f))
